@@ -50,12 +50,28 @@ _EDIT_WEIGHTS = {
     "cutpaste": 1,
     "section_add": 2,
     "title_edit": 1,
+    "note_delete": 3,
+    "page_delete": 2,
+    "page_mv": 2,
+    "word_remove": 2,
+    "bullet_remove": 1,
+    "section_delete": 1,
 }
+
+BROKEN_TAILS = ["stray words without a prefix", "O capital letter", "-no space after dash", " leading space"]
 
 
 def gen_case(rng: random.Random, tier: str) -> dict:
     world = gen.gen_world(rng, pages=(1, 3), max_items=5, allow_rare=False)
     prior = rng.random() < 0.8
+    # some worlds contain a page with a syntax error that is whitelisted (db create -f):
+    # the fifth store, error_file_whitelist.txt, then carries state across the crash
+    broken = None
+    if rng.random() < 0.25:
+        cands = [p for p, t in sorted(world["files"].items()) if any(ln[:2] in ("- ", "o ", "x ") for ln in t.split("\n")) and t.endswith("\n")]
+        if cands:
+            broken = rng.choice(cands)
+            world["files"][broken] = world["files"][broken] + rng.choice(BROKEN_TAILS) + "\n"
     feats = world["features"]
     edits = []
     if prior:
@@ -63,7 +79,7 @@ def gen_case(rng: random.Random, tier: str) -> dict:
             edits.append(gen.gen_edit(rng, feats, _EDIT_WEIGHTS))
     x = rng.random()
     if not prior or x < 0.25:
-        cmd: dict[str, Any] = {"op": "create"}
+        cmd: dict[str, Any] = {"op": "create", "force": bool(broken) and (not prior or rng.random() < 0.5)}
     elif x < 0.8:
         cmd = {"op": "reindex"}
     else:
@@ -76,6 +92,9 @@ def gen_case(rng: random.Random, tier: str) -> dict:
         "edits": edits,
         "days": rng.choice([0, 1, 1, 1, 7, 40]) if prior else 0,
         "cmd": cmd,
+        "broken_page": broken,
+        # thorough: a second kill during the rerun at a seeded boundary, for a share of the crash points
+        "second_crash": [rng.random() for _ in range(4)] if tier == "thorough" else [],
         "torn": torn,
         "torn_j": [round(rng.random(), 3), rng.randrange(100)],
         "day0": core.EPOCH_DAY + rng.randrange(0, 300),
@@ -155,8 +174,9 @@ def execute(case: dict, scratch: str) -> dict:
     rec.stats["evaluations"] = 0
     sim = hist.materialize(scratch, case)
     if case.get("prior"):
-        o = sim.run({"op": "create"})
-        rec.proc({"op": "create"}, None, o)
+        first = {"op": "create", "force": bool(case.get("broken_page"))}
+        o = sim.run(first)
+        rec.proc(first, None, o)
         if o.status != "ok":
             rec.stat("skipped:prior-create-failed")
             return rec.result()
@@ -187,6 +207,8 @@ def execute(case: dict, scratch: str) -> dict:
     rec.probe("world-with-page-write-back", int(pending_zid))
     rec.probe("world-with-two-or-more-page-write-backs", int(sum(1 for e in effects if e["kind"] == "write" and _store(e["path"]) == "page") >= 2))
     rec.probe("world-with-commit", int(any(e["kind"] == "commit" for e in effects)))
+    rec.probe("world-with-whitelisted-broken-page", int(bool(case.get("broken_page"))))
+    rec.probe("world-with-deleted-or-renamed-page", int(any(e.get("e") in ("page_delete", "page_mv") for e in case.get("edits", []))))
     golden.destroy()
 
     # ----------------------------------------------------------------- sweep
@@ -227,6 +249,21 @@ def execute(case: dict, scratch: str) -> dict:
             classes.add(cls)
             rec.probe("boundary:" + cls)
             rec.probe("nontrivial-boundary", int(0 < plan["k"]))
+            # thorough: for a share of the crash points the rerun is killed as well
+            # (at a seeded boundary of ITS effect sequence) before the final rerun
+            sc = case.get("second_crash") or []
+            if sc and sc[plan["k"] % len(sc)] < 0.15:
+                probe_twin = twin.clone(os.path.join(scratch, "probe"))
+                opr = probe_twin.run(cmd)
+                n2 = len(opr.effects)
+                probe_twin.destroy()
+                if opr.status == "ok" and n2 > 0:
+                    k2 = int(sc[(plan["k"] + 1) % len(sc)] * n2) % n2
+                    o2 = twin.run(cmd, fault={"kind": "crash-before", "k": k2})
+                    rec.proc(cmd, {"kind": "crash-before", "k": k2, "second": True}, o2, twin)
+                    if o2.status == "crash":
+                        rec.probe("second-crash-during-rerun")
+                        cls = cls + "+second-crash"
             orr = twin.run(cmd)
             rec.proc(cmd, None, orr, twin)
             v = _judge(twin, orr, cls, plan, before_text, before_zids, scratch)
